@@ -486,21 +486,51 @@ def rule_int_results_normalised(ctx, rep, rid: str) -> None:
                         rep.ok(rid, key)
                     else:
                         rep.bad(rid, key, f"the {'/'.join(names)} handler negates the integer remainder `{v}` without treating zero separately: -0 of an int is 0, so -5 % 5 is +0 and 1 / (-5 % 5) is Infinity instead of -Infinity", f"{df.module.rel}:{u.lineno}")
-    # int(text) that becomes a Number: numeric literals (lexer) and ToNumber
+    # int(text) that becomes a Number: numeric literals (lexer), ToNumber, the helpers they hand the text to, and the
+    # integer hook of the host JSON parser
+    text_funcs = []
     for f in ctx.tree.funcs:
         if isinstance(f.node, ast.Lambda):
             continue
-        if not ((f.module.name == "lexer" and "number" in f.name.lower()) or (f.module.name == "values" and f.name == "to_number")):
+        if (f.module.name == "lexer" and "number" in f.name.lower()) or (f.module.name == "values" and f.name == "to_number"):
+            text_funcs.append(f)
+    hooks = set()
+    for f in ctx.tree.funcs:
+        if isinstance(f.node, ast.Lambda):
             continue
+        for c in f.own_nodes():
+            if isinstance(c, ast.Call) and norm(c.func) == "json.loads":
+                n += 1
+                key = f"{f.qual}:json.loads:integer-tokens"
+                hk = [kw.value for kw in c.keywords if kw.arg == "parse_int"]
+                if not hk:
+                    rep.bad(rid, key, f"{f.qual} lets json.loads build host ints from integer tokens: JSON.parse('9007199254740993') is then an int with more digits than a double (=== 9007199254740992 is false, % 2 is 1)", f"{f.module.rel}:{c.lineno}")
+                else:
+                    rep.ok(rid, key, {"parse_int": norm(hk[0])})
+                    if isinstance(hk[0], ast.Name):
+                        hooks.add(hk[0].id)
+    for _ in range(3):
+        for f in list(text_funcs):
+            for c in f.own_nodes():
+                if isinstance(c, ast.Call) and isinstance(c.func, ast.Name) and (c.func.id not in norms):
+                    g = ctx.tree.resolve_function_name(f.module, c.func.id)
+                    if g is not None and g not in text_funcs and not isinstance(g.node, ast.Lambda) and g.module.name in ("values", "lexer", "context"):
+                        text_funcs.append(g)
+    for f in ctx.tree.funcs:
+        if not isinstance(f.node, ast.Lambda) and f.name in hooks and f not in text_funcs and f.module.name in ("values", "context"):
+            text_funcs.append(f)
+
+    for f in text_funcs:
         for r in f.own_nodes():
             if isinstance(r, ast.Return) and r.value is not None:
-                ints = [x for x in ast.walk(r.value) if isinstance(x, ast.Call) and isinstance(x.func, ast.Name) and x.func.id == "int"]
-                if not ints:
+                if not _returns_int_of_text(r, f):
                     continue
                 n += 1
                 key = f"{f.qual}:return {short(r.value, 30)}"
                 if wrapped(r.value):
                     rep.ok(rid, key)
+                elif _int_return_bounded(r, f):
+                    rep.ok(rid, key, {"bounded": "the int() result is returned only under a comparison with a constant up to 2**53"})
                 else:
                     rep.bad(rid, key, f"{f.qual} returns {short(r.value, 40)}: int() of a long digit string keeps every digit, so 9007199254740993 and 9007199254740992 are different Numbers", f"{f.module.rel}:{r.lineno}")
         if f.module.name == "values" and f.name == "to_number":
@@ -510,6 +540,82 @@ def rule_int_results_normalised(ctx, rep, rid: str) -> None:
                     n += 1
                     rep.bad(rid, f"{f.qual}:return {r.value.id}", f"to_number returns an int operand as it is: an embedder value or constant beyond 2**53 enters arithmetic with more digits than a double", f"{f.module.rel}:{r.lineno}")
     rep.analysed["int_result_sites"] = n
+
+
+def _returns_int_of_text(r: ast.Return, f) -> bool:
+    """The returned value contains int(..), or a local that was assigned from an expression containing int(..)."""
+    def has_int(e):
+        return any(isinstance(x, ast.Call) and isinstance(x.func, ast.Name) and x.func.id == "int" for x in ast.walk(e))
+
+    if has_int(r.value):
+        return True
+    names = {x.id for x in ast.walk(r.value) if isinstance(x, ast.Name)}
+    return any(isinstance(a, ast.Assign) and has_int(a.value) and any(isinstance(t, ast.Name) and t.id in names for t in a.targets) for a in f.own_nodes())
+
+
+def _int_return_bounded(r: ast.Return, f) -> bool:
+    """The int() in the returned value is reached only under a comparison with a constant up to 2**53."""
+    from .implicit import _const_number
+    from ..util import known_conditions
+
+    tests = [t for t, pol in known_conditions(r, f.node) if pol]
+    for x in ast.walk(r.value):
+        if isinstance(x, ast.IfExp) and any(isinstance(c, ast.Call) and norm(c.func) == "int" for c in ast.walk(x.body)):
+            tests.append(x.test)
+    for t in tests:
+        for c in ast.walk(t):
+            if isinstance(c, ast.Compare) and len(c.ops) == 1 and isinstance(c.ops[0], (ast.Lt, ast.LtE)):
+                k = _const_number(c.comparators[0])
+                if k is not None and k <= 2**53:
+                    return True
+    return False
+
+
+
+def rule_json_integer_tokens(ctx, rep, rid: str) -> None:
+    """JSON.parse builds Numbers: an integer token is a double like every other number.  The host parser builds a
+    host int of unlimited precision from it unless it is given a hook, and the hook has to round."""
+    rep.rule(rid, "the host JSON parser is given an integer hook, and what the hook returns is rounded to a double beyond 2**53 (through the engine's normaliser, or an int() result that is returned only under a comparison with a constant up to 2**53): JSON.parse('9007199254740993') is 9007199254740992", floor=1)
+    norms = _normalisers(ctx)
+    n = 0
+    for f in ctx.tree.funcs:
+        if isinstance(f.node, ast.Lambda):
+            continue
+        for c in f.own_nodes():
+            if not (isinstance(c, ast.Call) and norm(c.func) == "json.loads"):
+                continue
+            n += 1
+            key = f"{f.qual}:json.loads:integer-tokens"
+            hk = [kw.value for kw in c.keywords if kw.arg == "parse_int"]
+            if not hk:
+                rep.bad(rid, key, f"{f.qual} lets json.loads build host ints from integer tokens: JSON.parse('9007199254740993') is then an int with more digits than a double (=== 9007199254740992 is false, % 2 is 1)", f"{f.module.rel}:{c.lineno}")
+                continue
+            rep.ok(rid, key, {"parse_int": norm(hk[0])})
+            g = None
+            if isinstance(hk[0], ast.Name):
+                h = f
+                while h is not None and g is None:
+                    g = h.children.get(hk[0].id)
+                    h = h.parent
+                if g is None:
+                    g = ctx.tree.resolve_function_name(f.module, hk[0].id)
+            if g is None or isinstance(g.node, ast.Lambda):
+                if isinstance(hk[0], ast.Name) and hk[0].id in ("float",):
+                    n += 1
+                    rep.ok(rid, f"{f.qual}:parse_int=float")
+                    continue
+                raise AnalysisError(f"{rid}: the integer hook {norm(hk[0])} of json.loads in {f.qual} is not a function of the repository")
+            for r in g.own_nodes():
+                if isinstance(r, ast.Return) and r.value is not None and _returns_int_of_text(r, g):
+                    n += 1
+                    k2 = f"{g.qual}:return {short(r.value, 30)}"
+                    wrapped = isinstance(r.value, ast.Call) and isinstance(r.value.func, ast.Name) and r.value.func.id in norms
+                    if wrapped or _int_return_bounded(r, g):
+                        rep.ok(rid, k2)
+                    else:
+                        rep.bad(rid, k2, f"{g.qual}, the integer hook of JSON.parse, returns {short(r.value, 40)}: int() keeps every digit of the token, so JSON.parse('9007199254740993') differs from 9007199254740992 and from what the same literal means in source text", f"{g.module.rel}:{r.lineno}")
+    if n < 1:
+        raise AnalysisError(f"{rid}: JSON.parse's use of the host parser not recognised ({n} sites)")
 
 
 # ---- host rounding, min and max at the special points ----------------------------------------------------
